@@ -73,6 +73,12 @@ def gen_plan(rng, index, tier):
             bp["oc_extra_fuel"] = rng.random() < 0.6
     else:
         st["stationaryBlockFlags"] = []
+    if plate and rng.random() < 0.12:
+        # an entry of two words names blocks that carry both flags (none here): nothing stays in place
+        bp["plenum"] = True
+        st["stationaryBlockFlags"] = [rng.choice(["GRID_PLATE PLENUM", "PLENUM FUEL"])]
+    if bp["sfp"] and rng.random() < 0.35:
+        bp["sfp_stock"] = rng.choice([1, 2, 3])  # assemblies stored in the pool from the start (also without tracking)
     cfg = {"reactor": "gen", "blueprint": bp, "settings": st, "actors": [], "rejected": rng.random() < 0.2}
     steps = []
     kinds = ["swap", "swap", "cascade", "discharge_fresh", "discharge_pool", "add", "remove", "remove"]
